@@ -24,21 +24,23 @@ KMP_IF = mut("fallback-if-instead-of-while", "string.c", "while (j && pat[j] != 
 unit("str.kmp.init.table",
      "kmp_init: raises for the empty pattern; otherwise records text/pattern, starts at 0 and lookup[k] is the longest proper border of pat[0..k] (hence 0 <= lookup[k] <= k) for every k; every read inside the pattern, every write inside the table",
      "h_kmp_init_table", cls="bounded", bound="every pattern of at most 6 bytes (all byte contents)",
-     mode="plain", src=["string.c"], harness=["str_kmp.c"], defines=["-DKMP_MAXPAT=6"], unwind=8, unwindset={"calloc.0": 26},
+     mode="plain", src=["string.c"], harness=["str_kmp.c"], unwind=8, unwindset={"calloc.0": 26},
      functions=["kmp_init"],
-     assumes=["calloc: CBMC library model (zero-filled fresh block or NULL)"],
+     assumes=["calloc model (str_kmp.c): zero-filled fresh block of exactly n*sz bytes, or NULL"],
      mutants=[KMP_IF,
               mut("no-increment", "string.c", "if (pat[j] == pat[i]) j++;\n            lookup[i] = j;", "lookup[i] = j;\n            if (pat[j] == pat[i]) j++;", "C17"),
               mut("fallback-off-by-one", "string.c", "while (j && pat[j] != pat[i]) j = lookup[j - 1];", "while (j && pat[j] != pat[i]) j = lookup[j];", "C17|pointer|bounds")])
-unit("str.kmp.search.exact",
-     "kmp_next/kmp_seti: the sequence of results equals the reference search - first occurrence at or after the start index, then (find-all) every later occurrence including overlapping ones or (replace-all/split, after kmp_seti) the first occurrence behind the previous one; -1 exactly when none is left; never reads outside text or pattern",
-     "h_kmp_search", cls="bounded", bound="text of at most 8 bytes, pattern of 1..4 bytes, all byte contents, every start index 0..9, up to 9 consecutive calls",
-     mode="plain", src=["string.c"], harness=["str_kmp.c"], defines=["-DKMP_MAXPAT=4", "-DKMP_MAXTEXT=8"], unwind=18,
-     functions=["kmp_next", "kmp_seti", "kmp_init"], timeout=300,
-     assumes=["calloc: CBMC library model (zero-filled fresh block or NULL)"],
-     mutants=[KMP_IF,
-              mut("resume-state-zero", "string.c", "state->j = lookup[j];\n                return i - j;", "state->j = 0;\n                return i - j;", "C17"),
-              mut("mismatch-skips", "string.c", "if (j > 0) {\n                j = lookup[j - 1];\n            } else {", "if (j > 0) {\n                j = 0; i++;\n            } else {", "C17")])
+M_STALE_I = mut("hit-does-not-advance", "string.c", "state->i = i + 1;\n                state->j = lookup[j];", "state->i = i;\n                state->j = lookup[j];", "C17")
+M_RESUME0 = mut("resume-state-zero", "string.c", "state->j = lookup[j];\n                return i - j;", "state->j = 0;\n                return i - j;", "C17")
+M_SKIP = mut("mismatch-skips", "string.c", "if (j > 0) {\n                j = lookup[j - 1];\n            } else {", "if (j > 0) {\n                j = 0; i++;\n            } else {", "C17")
+for m in (1, 2, 3, 4):
+    unit("str.kmp.search.exact.p%d" % m,
+         "kmp_next/kmp_seti, pattern of %d byte(s): from a fresh state (start index stored, or kmp_seti) and from the state left by a hit, kmp_next returns the first occurrence not before the resume point (find-all: overlapping ones included; replace-all/split: behind the previous one), -1 exactly when none is left, and a hit leaves exactly the resume state - so by induction every result sequence equals the reference search; never reads outside text, pattern or table" % m,
+         "h_kmp_search", cls="bounded", bound="pattern of exactly %d byte(s), every text of 0..8 bytes, all byte contents, every start index 0..9" % m,
+         mode="plain", src=["string.c"], harness=["str_kmp.c"], defines=["-DKMP_PATLEN=%d" % m], unwind=18,
+         functions=["kmp_next", "kmp_seti", "kmp_init"], timeout=300, tier="quick",
+         assumes=["calloc model (str_kmp.c): zero-filled fresh block of exactly n*sz bytes, or NULL"],
+         mutants=[M_STALE_I] + ([M_SKIP] if m >= 2 else []) + ([M_RESUME0] if m >= 2 else []) + ([KMP_IF] if m >= 4 else []))
 
 json.dump({"defaults": {"props": ["C17"], "mode": "dfcc", "timeout": 120, "object_bits": 8, "checks": CHECKS}, "units": units},
           open(os.path.join(V, "units", "C17_str.json"), "w"), indent=1)
